@@ -62,7 +62,7 @@ def _fold(ops_, n):
     return t
 
 
-def prove(rep, nmfu, program):
+def prove(rep, nmfu, program, prop="C14"):
     OST = nmfu.OutputStorageType
     rep.fn(FNQ, "CodegenCtx._generate_buflike_index_expr", "CodegenCtx._generate_buflike_length_expr", "CodegenCtx._convert_literal_value")
     FL = {f: z3.Bool("flag_" + f.name) for f in nmfu.ProgramFlag}
@@ -82,7 +82,7 @@ def prove(rep, nmfu, program):
         spec = {o.name: o for o in c.cctx.state_object_spec}
         cc = c.cctx
     except Exception as e:
-        rep.unavailable(f"C14/pyvc/{FNQ}/setup", f"could not compile the representative declarations: {type(e).__name__}: {e}")
+        rep.unavailable(f"{prop}/pyvc/{FNQ}/setup", f"could not compile the representative declarations: {type(e).__name__}: {e}")
         return 0
 
     def sobj(real):
@@ -288,15 +288,15 @@ def prove(rep, nmfu, program):
         run_node(mk, lambda n_: "LiteralIntegerExpr", check, kinds=("out",))
 
     for clause, a in sorted(agg.items()):
-        oid = f"C14/pyvc/{FNQ}/{clause}"
+        oid = f"{prop}/pyvc/{FNQ}/{clause}"
         nob += 1
         if a["bad"] is None:
             rep.discharged_ob(oid, "pyvc-paths", 0.0, sample=f"{oid} ({a['n']} node instances x contexts x flag paths)")
         else:
             what, detail = a["bad"]
-            rep.failed_ob(Finding("C14", oid, f"{FNQ}|{clause}", f"induction step for {clause}: {what}", replay={"clause": clause, **{k: str(v) for k, v in detail.items()}}, replayed=False))
+            rep.failed_ob(Finding(prop, oid, f"{FNQ}|{clause}", f"induction step for {clause}: {what}", replay={"clause": clause, **{k: str(v) for k, v in detail.items()}}, replayed=False))
     if not agg:
-        rep.undecided_ob(f"C14/pyvc/{FNQ}/vacuity", "no node instance produced a rendering")
+        rep.undecided_ob(f"{prop}/pyvc/{FNQ}/vacuity", "no node instance produced a rendering")
     rep.trust("vf/csem/cparse.py: C expression grammar (precedence table) used to parse the emitted text",
               "structural induction over expression trees; operand counts above 4 rest on L-paren (paper lemma)")
     return nob
